@@ -4,6 +4,7 @@
 //!   wsim replay <file>                           re-execute a replay file
 //!   wsim plan <ID> <seed>                        print the plan a seed generates
 mod child;
+mod crash;
 mod gen;
 mod oracle;
 mod plan;
@@ -215,7 +216,8 @@ fn run_check(id: &str, tier: &str) -> i32 {
         }
     };
     let thorough = tier == "thorough";
-    let env = Env { bins: bins(), thorough };
+    let budget_s0: u64 = std::env::var("VERIF_BUDGET_S").ok().and_then(|s| s.parse().ok()).unwrap_or(if thorough { 600 } else { 60 });
+    let env = Env { bins: bins(), thorough, deadline: t0 + Duration::from_secs(budget_s0) };
     for b in [&env.bins.small, &env.bins.real] {
         if !b.exists() {
             eprintln!("wsim: missing binary {} (run /verif/check setup)", b.display());
@@ -447,7 +449,7 @@ fn replay(path: &str) -> i32 {
         Some(s) => s,
         None => return 2,
     };
-    let env = Env { bins: bins(), thorough: false };
+    let env = Env { bins: bins(), thorough: false, deadline: Instant::now() + Duration::from_secs(3600) };
     let (fs, hh) = sc.judge_plan(&rf.plan, &env);
     let hhs = format!("{:016x}", hh);
     println!("replay: property={} rule={} recorded_hash={} replay_hash={}", rf.property, rf.rule, rf.history_hash, hhs);
